@@ -154,6 +154,7 @@ pub struct Ctx {
     pub res: ShardResult,
     nontrivial: BTreeSet<u64>,
     max_samples: usize,
+    pub max_shrink_iters: u32,
 }
 
 // ---- panic capture -------------------------------------------------------------------------
@@ -225,6 +226,7 @@ impl Ctx {
             res: ShardResult { property: property.into(), profile: profile.into(), shard, ..Default::default() },
             nontrivial: BTreeSet::new(),
             max_samples: 4,
+            max_shrink_iters: 200,
         }
     }
 
@@ -239,6 +241,11 @@ impl Ctx {
     /// number of cases for this shard given a whole-run budget
     pub fn share(&self, total: u32) -> u32 {
         let n = self.nshards.max(1) as u32;
+        // development aid only: DVCHECK_SCALE scales every budget (registered commands never set it)
+        let total = match std::env::var("DVCHECK_SCALE").ok().and_then(|s| s.parse::<f64>().ok()) {
+            Some(f) => ((total as f64) * f).ceil() as u32,
+            None => total,
+        };
         let base = total / n;
         let extra = if (self.shard as u32) < total % n { 1 } else { 0 };
         base + extra
@@ -322,7 +329,7 @@ impl Ctx {
             cases,
             failure_persistence: None,
             rng_seed: RngSeed::Fixed(self.sub_seed(label)),
-            max_shrink_iters: 400,
+            max_shrink_iters: self.max_shrink_iters,
             max_global_rejects: 65536,
             max_local_rejects: 65536,
             verbose: 0,
